@@ -21,7 +21,7 @@ Proof. unfold okx; simpl. intros H E. rewrite run_snoc, H, E. reflexivity. Qed.
 Lemma advance_ok s0 fuel started t : forall x, okx s0 x -> okx s0 (advance fuel started t x).
 Proof.
   induction fuel as [|f IH]; simpl; intros [s sched] H; auto.
-  destruct (is_idle s t && negb (fifo_ok s started t)); auto.
+  destruct (queues_on_gate s t && negb (fifo_ok s started t)); auto.
   destruct (tstep s t) as [[s' [l|]]|] eqn:E; auto.
   apply IH. eapply okx_step; eauto.
 Qed.
